@@ -183,6 +183,58 @@ proof! {
     fn c16_t_generate_wide() { generate_on_state(4, 3) }
 }
 
+// ---- trading summary: every instrument's tear sheet holds exactly that instrument's history (needs the hook) ----
+#[cfg(barter_rs_barter_rs_verif)]
+fn summary_generators(a: TearSheetGenerator, b: TearSheetGenerator) -> barter_integration::collection::FnvIndexMap<barter_instrument::instrument::name::InstrumentNameInternal, TearSheetGenerator> {
+    use barter_integration::collection::verif::VecMap;
+    VecMap { len: 2, slots: [Some((crate::world::name_internal("btc_usdt"), a)), Some((crate::world::name_internal("eth_usdt"), b)), None, None] }
+}
+#[cfg(not(barter_rs_barter_rs_verif))]
+fn summary_generators(a: TearSheetGenerator, b: TearSheetGenerator) -> barter_integration::collection::FnvIndexMap<barter_instrument::instrument::name::InstrumentNameInternal, TearSheetGenerator> {
+    [(crate::world::name_internal("btc_usdt"), a), (crate::world::name_internal("eth_usdt"), b)].into_iter().collect()
+}
+
+/// A closed position of instrument `target` (concrete per harness) with an exit time before / equal to / after the
+/// summary's clock updates exactly that instrument's tear sheet.
+fn summary_update(target: usize) {
+    use barter::statistic::summary::TradingSummaryGenerator;
+    let (ra, ga) = any_state(1, 2);
+    let (rb, gb) = any_state(1, 2);
+    let now = any_u8_lt(4);
+    let mut summary = TradingSummaryGenerator {
+        risk_free_return: Decimal::ZERO,
+        time_engine_start: time_at(0),
+        time_engine_now: time_at(now),
+        instruments: summary_generators(generator(ra), generator(rb)),
+        assets: Default::default(),
+    };
+    let exit = any_u8_lt(4);
+    let (pnl, price, quantity) = (dec_i(2), dec_pos(2), dec_pos(2));
+    let mut position = closed(pnl, price, quantity, exit);
+    position.instrument = InstrumentIndex(target);
+    summary.update_from_position(&position);
+    let (named, other, g_named, g_other) = {
+        use barter::statistic::summary::InstrumentTearSheetManager;
+        let a = summary.instrument(&InstrumentIndex(0)).clone();
+        let b = summary.instrument(&InstrumentIndex(1)).clone();
+        if target == 0 { (a, b, ga, gb) } else { (b, a, gb, ga) }
+    };
+    // the other instrument's history is untouched
+    check_invariant(&other.pnl_returns, &g_other);
+    // the named instrument gained exactly this position
+    let r = pnl / (price * quantity);
+    let mut g = g_named;
+    if r < Decimal::ZERO { g.l += 1; g.sl = g.sl + r; } else { g.w += 1; g.sw = g.sw + r; }
+    g.p = g.p + pnl;
+    check_invariant(&named.pnl_returns, &g);
+    assert!(summary.time_engine_now == time_at(if exit > now { exit } else { now }), "C16: summary clock is not the latest time seen");
+    kani::cover!(exit < now, "position exit older than the summary clock");
+    kani::cover!(exit == now, "equal timestamps");
+    core::mem::forget((summary, position, named, other));
+}
+proof! { #[kani::unwind(12)] fn c16_q_summary_update_first_instrument() { summary_update(0) } }
+proof! { #[kani::unwind(12)] fn c16_t_summary_update_second_instrument() { summary_update(1) } }
+
 proof! {
     #[kani::unwind(8)]
     fn c16_twin_must_fail() {
